@@ -1,5 +1,7 @@
 import MgpuModel.Util
 import MgpuModel.C01_Emu
+import MgpuModel.C01_Kernels
+import MgpuModel.C01_Kernels2
 /-! # C01 — kernel-argument marshalling of the driver
 
 Model of `amd/driver/kernel.go`: `createAQLPacket`, `prepareLocalMemory` and the
@@ -115,6 +117,12 @@ def handle (line : String) : String :=
     | _, _, _, _, _, _ => "bad"
   | "c01" :: "emu" :: _ => Emu.handle line
   | "c01" :: "copycode" :: _ => Emu.handle line
+  | ["c01", "kcode", "relufwd"] => Util.bytesHex Emu.reluFwdKernelCode
+  | "c01" :: "kcode" :: _ => Emu.handleK line
+  | "c01" :: "d2dplan" :: _ => Emu.handleK line
+  | "c01" :: "d2d" :: _ => Emu.handleK line
+  | "c01" :: "d2dtail" :: _ => Emu.handleK line
+  | "c01" :: "pageq" :: _ => Emu.handleK line
   | _ => "bad"
 
 end C01
